@@ -75,9 +75,13 @@ def _filters():
     for n in ("participants", "spectators"):
         f[n] = ("PL", "OP", lambda r: [])
     f["keep_quarks"] = ("PL", "JP", lambda r: [])
-    f["particle_species"] = ("PL", "OJP", lambda r: [r.choice([r.choice(PDGS), r.sample(PDGS, r.randint(1, 3)), 310])])
-    f["remove_particle_species"] = ("PL", "OJP", lambda r: [r.choice([r.choice(PDGS), r.sample(PDGS, r.randint(1, 3))])])
-    f["particle_status"] = ("PL", "JP", lambda r: [r.choice([27, 11, 5])])
+    f["particle_species"] = ("PL", "OJP", lambda r: [r.choice([r.choice(PDGS), r.sample(PDGS, r.randint(1, 3)), 310,
+                                                               {"tuple": r.sample(PDGS, r.randint(1, 3))},
+                                                               {"array": r.sample(PDGS, r.randint(1, 3))}])])
+    f["remove_particle_species"] = ("PL", "OJP", lambda r: [r.choice([r.choice(PDGS), r.sample(PDGS, r.randint(1, 3)),
+                                                                      {"tuple": r.sample(PDGS, r.randint(1, 2))},
+                                                                      {"array": r.sample(PDGS, r.randint(1, 2))}])])
+    f["particle_status"] = ("PL", "JP", lambda r: [r.choice([27, 11, 5, [27, 5], {"tuple": [11, 27]}, {"array": [11]}])])
     f["pT_cut"] = ("PL", "OJP", lambda r: [r.choice([[0.75, None], [None, 1.5], [0.75, 2.5], [50.0, None]])])
     f["mT_cut"] = ("PL", "OJP", lambda r: [r.choice([[0.5, None], [None, 1.5], [100.0, None]])])
     f["rapidity_cut"] = ("PL", "OJP", lambda r: [r.choice([0.5, [0.0, 2.0], [-1.0, 0.25]])])
@@ -97,7 +101,9 @@ def pyargs(name, args):
     """JSON arguments -> what the method expects (cut windows are tuples)"""
     out = []
     for a in args:
-        if isinstance(a, list) and (name in CUT2 or name.endswith("_cut")):
+        if isinstance(a, dict):          # {"tuple": [...]} / {"array": [...]}: the other documented shapes of an id argument
+            out.append(tuple(a["tuple"]) if "tuple" in a else np.array(a["array"], dtype=int))
+        elif isinstance(a, list) and (name in CUT2 or name.endswith("_cut")):
             out.append(tuple(a))
         else:
             out.append(a)
@@ -141,6 +147,20 @@ def make_particle(p):
     return q
 
 
+def case_row(cls, p):
+    """the row particle_list() documents for this particle, from the case data alone (the columns the harness wrote to the
+    file / set on the object): Oscar2013Extended line, JETSCAPE line, the 24 attributes of a ParticleObjectStorer row"""
+    nan = float("nan")
+    if cls == "jetscape":
+        return [p["pid"], p["pdg"], p["status"], float(p["E"]), float(p["px"]), 0.0, float(p["pz"])]
+    head = [200.0, float(p["x"]), float(p["x"]), float(p["z"]), 0.138, float(p["E"]), float(p["px"]), 0.0, float(p["pz"]),
+            p["pdg"], p["pid"], CHARGE[p["pdg"]], p["ncoll"]]
+    ba, st = BARYON.get(p["pdg"], 0), STRANGE.get(p["pdg"], 0)
+    if cls == "oscar":
+        return head + [0.0, 1.0, 0, 0, 0.0, 0, 0, ba, st]
+    return head + [nan] * 7 + [ba, st, nan, p["status"]]
+
+
 def errname(e):
     n = type(e).__name__
     return n if n in ("TypeError", "ValueError", "IndexError", "KeyError", "AttributeError", "ZeroDivisionError") else "OtherError"
@@ -167,6 +187,7 @@ class Engine:
         self.case, self.work = case, work
         self.ident = {}        # id(particle object) -> pid
         self.ref = {}          # pid -> reference object with the same attributes (predicate evaluation)
+        self.rows = {}         # pid -> the row of that particle, from the case data (case_row)
         self.objs = []         # final storer object per def (None after an exception)
         self.heldfinal = []
         self.viol = []         # property violations (strings)
@@ -310,6 +331,16 @@ class Engine:
             if not same(pl, exp):
                 v.append(f"{where}: particle_list() does not mirror particle_objects_list() "
                          f"(shape {[len(e) if isinstance(e, list) else '?' for e in pl][:6]})")
+            # the same statement without the class's own row conversion: row k of event j holds the values of the k-th
+            # particle held in event j, as given in the case data
+            rows = [[self.rows.get(self.ident.get(id(p), -1)) for p in e] for e in held]
+            if all(r is not None for e in rows for r in e):
+                exp2 = (rows[0] if rows else []) if n == 1 else rows
+                if not same(pl, exp2):
+                    bad = [(j, k) for j, (ea, eb) in enumerate(zip(pl if n != 1 else [pl], rows)) for k, (ra, rb) in enumerate(zip(ea, eb))
+                           if not same(ra, rb)][:1]
+                    at = f"event {bad[0][0]} row {bad[0][1]}: {(pl if n != 1 else [pl])[bad[0][0]][bad[0][1]]} instead of {rows[bad[0][0]][bad[0][1]]}" if bad else "shape"
+                    v.append(f"{where}: particle_list() rows are not the values of the particles held ({at})")
         except Exception as e:
             v.append(f"{where}: particle_list() raises {type(e).__name__}: {e}")
         if mirror is not None:
@@ -380,6 +411,10 @@ class Engine:
         for di, d in enumerate(self.case["defs"]):
             tr = {"load": None, "steps": [], "ctor": None, "ops": []}
             self.trace.append(tr)
+            try:
+                self.rows.update({p["pid"]: case_row(d["cls"], p) for ev in d["events"] for p in ev})
+            except Exception:
+                pass
             try:
                 self.ref.update(self.reference(di, d))
                 if d.get("filters") is not None:
@@ -536,7 +571,7 @@ def gen_particle(rng, pid, parton=False):
             "status": rng.choice([27, 27, 11])}
 
 
-def gen_def(rng, di, cls=None, small=False):
+def gen_def(rng, di, cls=None, small=False, parton=False):
     cls = cls or rng.choice(["oscar", "jetscape", "pobj"])
     nev = rng.choice([1, 2, 3, 3, 4] if not small else [1, 2, 3])
     events, pid = [], 100 * (di + 1)
@@ -545,12 +580,12 @@ def gen_def(rng, di, cls=None, small=False):
         ev = []
         for _ in range(m):
             pid += 1
-            ev.append(gen_particle(rng, pid))
+            ev.append(gen_particle(rng, pid, parton=parton and cls == "jetscape"))
         events.append(ev)
     d = {"cls": cls, "events": events, "sel": None, "filters": None, "hist": []}
     if cls == "jetscape":
         d["sigma"] = rng.choice([0.5, 0.25, 0.75, 1.5])
-        d["ptype"] = "hadron"
+        d["ptype"] = "parton" if parton else "hadron"
     r = rng.random()
     if r < 0.3:
         d["sel"] = rng.randrange(nev)
@@ -577,9 +612,10 @@ def gen_filter(rng, cls):
 def gen_case(rng, small=False):
     nd = rng.choice([1, 2, 2, 3])
     cls = rng.choice(["oscar", "jetscape", "pobj"])
+    parton = cls == "jetscape" and rng.random() < 0.2       # a parton file (all storers of the case: + needs the same type)
     defs = []
     for di in range(nd):
-        d = gen_def(rng, di, cls=cls, small=small)
+        d = gen_def(rng, di, cls=cls, small=small, parton=parton)
         n = rng.randint(0, 8 if not small else 5)
         for _ in range(n):
             r = rng.random()
